@@ -208,11 +208,15 @@ def run_batches(check: Check, tier: str, seed: int, jobs: int, wall_cap: float, 
     _SEED = seed
     t0 = time.time()
     tasks = []
+    keyed = []
     for bi, b in enumerate(check.batches):
-        n = int((b.quick if tier == "quick" else b.thorough) * scale)
+        n = max(1, int((b.quick if tier == "quick" else b.thorough) * scale))
         per = max(1, min(400, n // (jobs * 4) if n >= jobs * 4 else 1))
         for lo in range(0, n, per):
-            tasks.append((bi, lo, min(n, lo + per)))
+            # interleave the batches by completed fraction, so that a wall cap shortens all of them alike
+            keyed.append((lo / n, bi, lo, min(n, lo + per)))
+    keyed.sort()
+    tasks = [(bi, lo, hi) for _, bi, lo, hi in keyed]
     results: List[Dict[str, Any]] = []
     truncated = False
     ctx = mp.get_context("fork")
@@ -276,7 +280,7 @@ def write_replay(check: Check, scn: Dict[str, Any], v: Dict[str, Any], seed: int
 def execute_check(check: Check, tier: str, seed: int, jobs: int) -> int:
     from . import shrink
     t0 = time.time()
-    wall_cap = float(os.environ.get("VERIF_WALL_CAP", 150 if tier == "quick" else 1500))
+    wall_cap = float(os.environ.get("VERIF_WALL_CAP", 240 if tier == "quick" else 3600))
     scale = float(os.environ.get("VERIF_SCALE", 1.0))
     results, truncated, wall = run_batches(check, tier, seed, jobs, wall_cap, scale)
     harness_errors = [r for r in results if "harness_error" in r]
